@@ -576,6 +576,8 @@ def malformed_cases():
     cases.append(("arbitrary loss above 100 %", arb(impact={"rA|agri": 1.2})))
     cases.append(("arbitrary loss negative", arb(impact={"rA|agri": -0.2})))
     cases.append(("unknown record name", lambda: scen.build_sim(corpus.mk_sc(tb, cfg, [], T=5, save_records=["no_such_record"]))))
+    cases.append(("unknown record name next to a valid one", lambda: scen.build_sim(corpus.mk_sc(tb, cfg, [], T=5, save_records=["production_realised", "no_such_record"]))))
+    cases.append(("unknown record name between valid ones", lambda: scen.build_sim(corpus.mk_sc(tb, cfg, [], T=5, save_records=["production_realised", "prodution_capacity", "overproduction"]))))
     cases.append(("save_records as an unknown string", lambda: scen.build_sim(corpus.mk_sc(tb, cfg, [], T=5, save_records="everything"))))
 
     def not_event():
@@ -1711,6 +1713,38 @@ def explore_c17(tier, seed):
                 viol(res, "C17", "the caller's households impact Series was modified", case=scen.summarize(sc))
             if rs is not None and not same_snapshot(s_rs, rs):
                 viol(res, "C17", "the caller's rebuilding-sectors dict was modified", case=scen.summarize(sc))
+        # the library's objects are their own: edits the caller makes LATER to the containers it passed (the buffer of a sweep
+        # re-used for the next model, a Series of shares adjusted for the next event) change nothing in what was already built
+        try:
+            k_before = np.array(model.productive_capital, dtype=float, copy=True)
+            cc = LAST_CALLER.get("capital")
+            if isinstance(cc, np.ndarray):
+                cc *= 0.5
+            elif isinstance(cc, (pd.Series, pd.DataFrame)):
+                cc.iloc[:] = cc.to_numpy() * 0.5
+            if cc is not None and not np.array_equal(k_before, np.asarray(model.productive_capital, dtype=float)):
+                viol(res, "C17", "the model's capital stock changed when the caller edited, after construction, the capital vector it had passed "
+                     "(kept by reference)", case=scen.summarize(sc), kind=type(cc).__name__)
+            for ev, (imp, _si, house, _sh, rs, _sr) in zip(ev_objs, ev_inputs):
+                snap_ev = {"impact": deep_snapshot(ev.impact)}
+                if hasattr(ev, "rebuilding_sectors"):
+                    snap_ev["rebuilding_sectors"] = deep_snapshot(ev.rebuilding_sectors)
+                if getattr(ev, "impact_households", None) is not None:
+                    snap_ev["impact_households"] = deep_snapshot(ev.impact_households)
+                imp.iloc[:] = imp.to_numpy() * 0.5
+                if house is not None:
+                    house.iloc[:] = house.to_numpy() * 0.5
+                if isinstance(rs, pd.Series) and len(rs) > 1:
+                    rs.iloc[:] = rs.to_numpy()[::-1].copy()
+                elif isinstance(rs, dict) and len(rs) > 1:
+                    ks_ = list(rs)
+                    rs[ks_[0]], rs[ks_[-1]] = rs[ks_[-1]], rs[ks_[0]]
+                for nm_, sn_ in snap_ev.items():
+                    if not same_snapshot(sn_, getattr(ev, nm_)):
+                        viol(res, "C17", f"an Event object changed ({nm_}) when the caller edited, after construction, the container it had passed "
+                             "(kept by reference)", case=scen.summarize(sc))
+        except Exception as _e:
+            viol(res, "C17", f"later-edit (aliasing) check failed to run: {type(_e).__name__}: {str(_e)[:150]}", case=scen.summarize(sc))
         # one Event object used in two simulations (second one on another table with the same labels)
         if ev_objs:
             tb2 = scen.gen_table(random.Random(s + 99), m=sc["table"]["m"], n=sc["table"]["n"], k=sc["table"]["k"], kind="dense", scale=sc["table"]["scale"],
@@ -1734,8 +1768,12 @@ def explore_c17(tier, seed):
     return res
 
 
+LAST_CALLER = {}
+
+
 def build_model_with_caller_objects(tb, cfg, io):
     """like scen.build_model but passes the caller's containers themselves (no defensive copies)"""
+    LAST_CALLER.clear()
     regs, secs, cats = scen.labels(tb)
     kw = dict(order_type=cfg["order_type"], alpha_base=cfg["alpha_base"], alpha_max=cfg["alpha_max"], alpha_tau=cfg["alpha_tau"],
               rebuild_tau=cfg["rebuild_tau"], main_inv_dur=cfg["main_inv_dur"], monetary_factor=cfg["monetary_factor"],
@@ -1754,6 +1792,7 @@ def build_model_with_caller_objects(tb, cfg, io):
         kw["productive_capital_vector"] = pd.Series(cap["values"], index=ind, dtype=float)
     elif cap["kind"] == "dataframe":
         kw["productive_capital_vector"] = pd.DataFrame({"capital": cap["values"]}, index=ind, dtype=float)
+    LAST_CALLER["capital"] = kw.get("productive_capital_vector")
     if cfg["class"] == "psi":
         kw["psi_param"] = cfg.get("psi", 0.8)
         kw["inventory_restoration_tau"] = cfg.get("restoration_tau", 60)
